@@ -167,7 +167,7 @@ def mphys_groups(rep, tier, timeout):
     except Exception as e:
         rep.errors.append("mphys groups not importable: %r" % (e,))
         return
-    ss = [K.surface(2, 2, True, name="wing"), K.surface(2, 3, False, name="tail")]
+    ss = [K.surface(2, 2, True, name="wing"), K.surface(2, 3, False, name="tail"), K.surface(3, 2, True, name="fin")]
     obs = []
     for compressible in (False, True):
         prob = om.Problem(reports=False)
@@ -257,6 +257,8 @@ def run(tier, seed, only=None):
         split(rep, tier, timeout)
     if not only or "mphys" in only:
         mphys_groups(rep, tier, timeout)
+        mphys_scenario(rep, tier, timeout)
+        index_bookkeeping(rep, tier, timeout)
     rep.stubs.add("vortex kernels -> canonicalised uninterpreted functions")
     rep.assumptions = ["real arithmetic", "same circulations given to both compositions (equal systems imply equal solutions when nonsingular)",
                        "not decided: vanishing influence of a far-away surface (a limit); CM normalisation by the first surface is documented behaviour",
@@ -271,3 +273,265 @@ def replay_file(path):
     print("recorded counterexample: %s" % spec.get("what"))
     print("VIOLATION property=%s replay=%s" % (PID, path))
     return 1
+
+
+def _mpi_single_process_stub():
+    """OpenMDAO's FakeComm (no mpi4py here) lacks two calls MPhys' DistributedConverter makes; single-process semantics"""
+    from openmdao.utils.mpi import FakeComm
+
+    if not hasattr(FakeComm, "Get_rank"):
+        FakeComm.Get_rank = lambda self: 0
+    if not hasattr(FakeComm, "bcast"):
+        FakeComm.bcast = lambda self, x, root=0: x
+
+
+def mphys_scenario_problem(ss, compressible=False, vals=None):
+    """the real MPhys aerodynamic scenario assembled by the real AeroBuilder, as tests/integration_tests/test_simple_rect_mphys_aero.py does"""
+    import warnings
+
+    import openmdao.api as om
+    from mphys.core import Multipoint, MPhysVariables as MV
+    from mphys.scenarios import ScenarioAerodynamic
+    from openaerostruct.mphys import AeroBuilder
+
+    _mpi_single_process_stub()
+    FV = MV.Aerodynamics.FlowConditions
+    vals = vals or {}
+
+    class Top(Multipoint):
+        def setup(self):
+            dvs = self.add_subsystem("dvs", om.IndepVarComp(), promotes=["*"])
+            dvs.add_output(FV.ANGLE_OF_ATTACK, val=vals.get("alpha", 3.0), units="deg")
+            dvs.add_output(FV.YAW_ANGLE, val=vals.get("beta", 0.0), units="deg")
+            dvs.add_output("rho", val=vals.get("rho", 1.1), units="kg/m**3")
+            dvs.add_output(FV.MACH_NUMBER, vals.get("Mach_number", 0.3))
+            dvs.add_output("v", vals.get("v", 10.0), units="m/s")
+            dvs.add_output(FV.REYNOLDS_NUMBER, vals.get("re", 1e6), units="1/m")
+            dvs.add_output("cg", val=vals.get("cg", np.zeros(3)), units="m")
+            b = AeroBuilder(ss, {"compressible": compressible, "write_solution": False})
+            b.initialize(self.comm)
+            self.builder = b
+            self.add_subsystem("mesh", b.get_mesh_coordinate_subsystem())
+            self.mphys_add_scenario("aero_point_0", ScenarioAerodynamic(aero_builder=b))
+            self.connect("mesh.%s" % MV.Aerodynamics.Surface.Mesh.COORDINATES, "aero_point_0.%s" % MV.Aerodynamics.Surface.COORDINATES)
+            for dv in (FV.ANGLE_OF_ATTACK, FV.YAW_ANGLE, FV.MACH_NUMBER, FV.REYNOLDS_NUMBER, "rho", "v", "cg"):
+                self.connect(dv, "aero_point_0.%s" % dv)
+
+    prob = om.Problem(reports=False)
+    prob.model = Top()
+    with warnings.catch_warnings():
+        warnings.simplefilter("ignore")
+        prob.setup()
+        prob.final_setup()
+    return prob, FV, MV
+
+
+def mphys_scenario(rep, tier, timeout):
+    """The whole MPhys aerodynamic scenario (AeroMesh -> collector -> demuxer -> AeroSolverGroup -> muxer -> distributor ->
+    AeroFuncsGroup), built by the real AeroBuilder and executed symbolically through its own connections, against the
+    native AeroPoint executed the same way, for the same node coordinates (in the node numbering the builder hands to
+    MPhys, get_node_indices), flow and circulations."""
+    from props import groups
+    from symoas import kernels
+    from openaerostruct.mphys.utils import get_node_indices
+
+    ss = [K.surface(2, 2, True, name="wing"), K.surface(2, 3, False, name="tail"), K.surface(3, 2, True, name="fin")]
+    try:
+        prob, FV, MV = mphys_scenario_problem(ss)
+    except Exception as e:
+        rep.errors.append("MPhys scenario cannot be set up: %r" % (e,))
+        return
+    rep.stubs.add("FakeComm.Get_rank -> 0, FakeComm.bcast -> identity (single-process MPI semantics for MPhys' DistributedConverter)")
+    node = get_node_indices(ss)  # unchanged public numbering: surface by surface, row-major (nx, ny)
+    nn = sum(s["mesh"].shape[0] * s["mesh"].shape[1] for s in ss)
+    x = symarray("x_aero", (3 * nn,))
+    meshes = {}
+    for s in ss:
+        nx, ny = s["mesh"].shape[:2]
+        m = np.empty((nx, ny, 3), dtype=object)
+        for i in range(nx):
+            for j in range(ny):
+                for c in range(3):
+                    m[i, j, c] = x[3 * int(node[s["name"]][i, j]) + c]
+        if s["symmetry"]:
+            for i in range(nx):
+                x[3 * int(node[s["name"]][i, ny - 1]) + 1] = ZERO
+                m[i, ny - 1, 1] = ZERO
+        meshes[s["name"]] = m
+    npan = sum((s["mesh"].shape[0] - 1) * (s["mesh"].shape[1] - 1) for s in ss)
+    gam = symarray("circulations", (npan,))
+    flow = {"alpha": symarray("alpha", (1,)), "beta": symarray("beta", (1,)), "v": symarray("v", (1,)), "rho": symarray("rho", (1,)),
+            "Mach_number": symarray("Mach_number", (1,)), "re": symarray("re", (1,)), "cg": symarray("cg", (3,))}
+    toc = {s["name"]: symarray(s["name"] + "_t_over_c", (s["mesh"].shape[1] - 1,)) for s in ss}
+    GP = pipe.GroupPipe(prob, extra=kernels.EVAL_MTX_STUBS)
+    ext = {FV.ANGLE_OF_ATTACK: flow["alpha"], FV.YAW_ANGLE: flow["beta"], FV.MACH_NUMBER: flow["Mach_number"], FV.REYNOLDS_NUMBER: flow["re"],
+           "rho": flow["rho"], "v": flow["v"], "cg": flow["cg"], "mesh.%s" % MV.Aerodynamics.Surface.Mesh.COORDINATES: x}
+    for s in ss:
+        ext["aero_point_0.aero_post.%s.t_over_c" % s["name"]] = toc[s["name"]]
+        ext["aero_point_0.%s.t_over_c" % s["name"]] = toc[s["name"]]
+    circ_abs = [a for a in GP.meta_out if a.endswith("solve_matrix.circulations")]
+    GP.run(external=ext, states={circ_abs[0]: gam})
+    GP.encode(rep)
+    # the concrete coordinates AeroMesh publishes are the surface meshes in that same node numbering
+    xp = np.asarray(prob.get_val("mesh.%s" % MV.Aerodynamics.Surface.Mesh.COORDINATES), dtype=float)
+    obs = []
+    for s in ss:
+        nx, ny = s["mesh"].shape[:2]
+        for i in range(nx):
+            for j in range(ny):
+                for c in range(3):
+                    obs.append(oblig.Ob("AeroMesh %s[%d,%d,%d]" % (s["name"], i, j, c), lhs=S(float(xp[3 * int(node[s["name"]][i, j]) + c])), rhs=S(float(s["mesh"][i, j, c])),
+                                        meta={"family": "AeroMesh publishes the surface meshes in the builder's node numbering", "kind": "mesh"}))
+    # native AeroPoint through its own wiring
+    G = groups.aeropoint_symbolic(ss, meshes, circulations=gam,
+                                  external=dict({k: flow[k] for k in ("alpha", "beta", "v", "rho", "Mach_number", "re", "cg")},
+                                                **{s["name"] + "_t_over_c": toc[s["name"]] for s in ss}))
+    R = [v for k, v in GP.resid.items() if k.endswith("circulations")][0]
+    Rn = G.resid["aero_point_0.aero_states.solve_matrix.circulations"]
+    for r in range(npan):
+        obs.append(oblig.Ob("scenario residual[%d]" % r, lhs=S(R[r]), rhs=S(Rn[r]), meta={"family": "MPhys scenario solves the native VLM system", "kind": "res"}))
+    fa = [v for k, v in GP.vals.items() if k.endswith("distributor.%s" % MV.Aerodynamics.Surface.LOADS)][0]
+    for s in ss:
+        n = s["name"]
+        nx, ny = s["mesh"].shape[:2]
+        nat = G.get("aero_point_0.aero_states.%s_mesh_point_forces" % n)
+        for i in range(nx):
+            for j in range(ny):
+                for c in range(3):
+                    obs.append(oblig.Ob("f_aero node %s[%d,%d,%d]" % (n, i, j, c), lhs=S(fa[3 * int(node[n][i, j]) + c]), rhs=S(nat[i, j, c]),
+                                        meta={"family": "MPhys nodal loads are the native mesh-point forces at the builder's node numbers", "kind": "f", "surf": n, "idx": [i, j, c]}))
+        obs += idents("scenario %s sec_forces" % n, [v for k, v in GP.vals.items() if k.endswith("states.solver.%s_sec_forces" % n) or k.endswith("solver.panel_forces_surf.%s_sec_forces" % n)][0],
+                      G.get("aero_point_0.aero_states.%s_sec_forces" % n), meta={"family": "MPhys scenario returns the native sectional forces", "kind": "sec", "surf": n})
+        for q in ("CL", "CD"):
+            obs += idents("scenario %s %s" % (n, q), GP.get("aero_point_0.aero_post.%s.%s.%s" % (n, q, q)) if False else [v for k, v in GP.vals.items() if k.endswith("aero_post.%s.%s.%s" % (n, q, q))][0],
+                          G.get("aero_point_0.%s_perf.%s" % (n, q)), meta={"family": "MPhys scenario returns the native per-surface coefficients", "kind": "coef", "q": "%s.%s" % (n, q)})
+    for q in ("CL", "CD", "CM"):
+        a = [v for k, v in GP.vals.items() if k.endswith("aero_post.total_perf.%s" % ({"CL": "CL_CD.CL", "CD": "CL_CD.CD", "CM": "moment.CM"}[q]))][0]
+        b = G.get("aero_point_0.total_perf.%s" % ({"CL": "CL_CD.CL", "CD": "CL_CD.CD", "CM": "moment.CM"}[q]))
+        obs += idents("scenario total %s" % q, a, b, meta={"family": "MPhys scenario returns the native aircraft coefficients", "kind": "tot", "q": q})
+
+    def rp(ob, env):
+        return replay_mphys(ss)
+
+    run_obligations(rep, "MPhys scenario (real AeroBuilder) vs native AeroPoint, 3 surfaces", obs, timeout, levels=(1, 2), replay=rp,
+                    family=lambda ob: "MPhys: " + ob.meta["family"])
+
+
+def replay_mphys(ss, compressible=False):
+    """both real models on floats: the MPhys scenario and the native AeroPoint for the same meshes and flow"""
+    from props import groups
+
+    vals = {"alpha": 4.0, "beta": 0.0, "v": 60.0, "rho": 1.0, "Mach_number": 0.3, "re": 1e6}
+    from openaerostruct.mphys.utils import get_node_indices
+
+    prob, FV, MV = mphys_scenario_problem(ss, compressible=compressible, vals=vals)
+    nat = groups.aeropoint_problem(ss, compressible=compressible, vals=vals)
+    nat.run_model()
+    bad = []
+    node = get_node_indices(ss)
+    xp = np.asarray(prob.get_val("mesh.%s" % MV.Aerodynamics.Surface.Mesh.COORDINATES), dtype=float).reshape(-1, 3)
+    for s in ss:
+        d = np.abs(xp[node[s["name"]].ravel()] - s["mesh"].reshape(-1, 3)).max()
+        if d > 1e-12:
+            bad.append("AeroMesh coordinates of %s differ from its mesh at the builder's node numbers (max %.3g)" % (s["name"], d))
+    try:
+        prob.run_model()
+    except Exception as e:
+        return True, "; ".join(bad + ["the MPhys scenario fails (%s) where the native AeroPoint runs" % (str(e)[-90:],)])
+    for s in ss:
+        n = s["name"]
+        for q in ("CL", "CD"):
+            a = float(prob.get_val("aero_point_0.%s.%s" % (n, q))[0])
+            b = float(nat.get_val("aero_point_0.%s_perf.%s" % (n, q))[0])
+            if model.differs(a, b, 1e-8):
+                bad.append("%s %s: MPhys %.9g, native %.9g" % (n, q, a, b))
+    for q in ("CL", "CD", "CM"):
+        a = np.asarray(prob.get_val("aero_point_0.%s" % q), dtype=float).ravel()
+        b = np.asarray(nat.get_val("aero_point_0.%s" % q), dtype=float).ravel()
+        if np.abs(a - b).max() > 1e-8 * max(1.0, np.abs(b).max()):
+            bad.append("total %s: MPhys %s, native %s" % (q, a, b))
+    return bool(bad), "; ".join(bad[:4]) or "MPhys scenario and native AeroPoint agree on all coefficients"
+
+
+class _Range:
+    """np.arange(n) + k with symbolic n, k: the half-open index range [start, start + length)"""
+
+    def __init__(self, start, length):
+        self.start, self.length = S(start), S(length)
+
+    def __add__(self, k):
+        return _Range(self.start + S(k), self.length)
+
+    __radd__ = __add__
+
+    def reshape(self, *shape):
+        self.shape = shape
+        return self
+
+
+def index_bookkeeping(rep, tier, timeout):
+    """get_src_indices / get_node_indices / get_number_of_nodes executed with *symbolic* mesh sizes: for every number of
+    chordwise and spanwise nodes per surface the index ranges are contiguous, start at 0, have the surface's own size and
+    the coordinate ranges are three times the node ranges (so the maps are a partition = inverse permutations and agree
+    with the node numbering handed to MPhys)."""
+    import openaerostruct.mphys.utils as mu
+
+    rep.encode(mu.get_src_indices, mu.get_node_indices, mu.get_number_of_nodes)
+    nsurf = 3 if tier == "quick" else 5
+
+    class NP:
+        def __getattr__(self, n):
+            return getattr(np, n)
+
+        @staticmethod
+        def arange(n):
+            return _Range(ZERO, n)
+
+    from symoas.sym import ge
+
+    nxs, nys = symarray("nx", (nsurf,)), symarray("ny", (nsurf,))
+    assume = [ge(v_, 2) for v_ in list(nxs) + list(nys)]
+
+    class M:
+        def __init__(self, nx, ny):
+            self.shape = (nx, ny, 3)
+            self.size = nx * ny * 3
+
+    surfaces = [{"name": "s%d" % k, "mesh": M(nxs[k], nys[k])} for k in range(nsurf)]
+    saved = mu.np
+    mu.np = NP()
+    try:
+        src = mu.get_src_indices(surfaces)
+        nod = mu.get_node_indices(surfaces)
+    finally:
+        mu.np = saved
+    obs = []
+    cum = ZERO
+    for k in range(nsurf):
+        n = "s%d" % k
+        cnt = nxs[k] * nys[k]
+        fam = {"family": "flattened-vector index ranges are contiguous, cumulative and three per node, for all mesh sizes", "k": k}
+        obs.append(oblig.Ob("src start %s" % n, lhs=src[n].start, rhs=3 * cum, assume=assume, meta=fam))
+        obs.append(oblig.Ob("src length %s" % n, lhs=src[n].length, rhs=3 * cnt, assume=assume, meta=fam))
+        obs.append(oblig.Ob("node start %s" % n, lhs=nod[n].start, rhs=cum, assume=assume, meta=fam))
+        obs.append(oblig.Ob("node length %s" % n, lhs=nod[n].length, rhs=cnt, assume=assume, meta=fam))
+        obs.append(oblig.Ob("src shape %s" % n, cond=__import__("symoas.sym", fromlist=["ne"]).ne(S(int(tuple(src[n].shape) == (nxs[k], nys[k], 3) or all(a is b or a == b for a, b in zip(src[n].shape, (nxs[k], nys[k], 3))))), 1), assume=assume, meta=fam))
+        cum = cum + cnt
+
+    def rp(ob, env):
+        # concrete meshes of the witness sizes through the real functions
+        sizes = [(2 + k, 2 + (k * 2) % 3) for k in range(nsurf)]
+        real = [{"name": "s%d" % k, "mesh": np.zeros((a, b, 3))} for k, (a, b) in enumerate(sizes)]
+        si, ni = mu.get_src_indices(real), mu.get_node_indices(real)
+        allidx = np.concatenate([si[s["name"]].ravel() for s in real])
+        tot = sum(a * b * 3 for a, b in sizes)
+        bad = []
+        if not np.array_equal(np.sort(allidx), np.arange(tot)):
+            bad.append("coordinate index ranges of surfaces sized %s are not a partition of 0..%d" % (sizes, tot - 1))
+        for s in real:
+            if not np.array_equal(si[s["name"]][..., 0], 3 * ni[s["name"]]):
+                bad.append("coordinate indices of %s are not three times its node numbers" % s["name"])
+        return bool(bad), "; ".join(bad[:3]) or "index maps are a partition for sizes %s" % (sizes,)
+
+    run_obligations(rep, "MPhys index bookkeeping, %d surfaces, symbolic sizes" % nsurf, obs, timeout, replay=rp,
+                    family=lambda ob: "MPhys: " + ob.meta["family"], cut_threshold=0)
